@@ -355,8 +355,8 @@ SELFTEST = [
     {"name": "leak-internal", "kind": "mutant", "edits": [("dropshot/src/error.rs", "message: self.external_message,", "message: self.internal_message,")], "expect": ["C13.R2", "C13.R3"], "why": "internal text sent to the client"},
     {"name": "accept-redirects", "kind": "mutant", "edits": [("dropshot/src/error_status_code.rs", "if status.is_client_error() || status.is_server_error() {", "if status.is_client_error() || status.is_server_error() || status.is_redirection() {")], "expect": ["C13.R1"], "why": "3xx representable as an error status"},
     {"name": "second-request-id", "kind": "mutant", "edits": [("dropshot/src/server.rs", "        request_id: request_id.to_string(),", "        request_id: generate_request_id(),")], "expect": ["C13.R4"], "why": "handler sees a different id than the header"},
-    {"name": "handler-arm-unstamped", "kind": "mutant", "edits": [("dropshot/src/handler.rs", "                        rsp.headers_mut().insert(HEADER_REQUEST_ID, header);", "                        let _ = header;")], "expect": ["C13.R5"], "why": "custom error responses lack x-request-id"},
-    {"name": "wrong-const-range", "kind": "mutant", "edits": [("dropshot/src/error_status_code.rs", "    pub const BAD_REQUEST: Self = Self(http::StatusCode::BAD_REQUEST);\n", "    pub const BAD_REQUEST: Self = Self(http::StatusCode::OK);\n")], "expect": ["C13.R1"], "why": "a constant outside 400-599 (first occurrence: ErrorStatusCode)"},
+    {"name": "handler-arm-unstamped", "kind": "mutant", "edits": [("dropshot/src/handler.rs", "                        rsp.headers_mut()\n                            .insert(crate::HEADER_REQUEST_ID, header);", "                        let _ = header;")], "expect": ["C13.R5"], "why": "custom error responses lack x-request-id"},
+    {"name": "wrong-const-range", "kind": "mutant", "edits": [("dropshot/src/error_status_code.rs", "            pub const $name: Self = Self(http::StatusCode::$name);", "            pub const $name: Self = Self(http::StatusCode::OK);")], "expect": ["C13.R1"], "why": "associated constants outside 400-599"},
     {"name": "extend-headers", "kind": "benign", "edits": [("dropshot/src/error.rs", "            *builder_headers = *headers;", "            builder_headers.extend(*headers);")], "why": "HeaderMap::extend from an owned HeaderMap keeps every value"},
     {"name": "commuted-or", "kind": "benign", "edits": [("dropshot/src/error_status_code.rs", "if status.is_client_error() || status.is_server_error() {", "if status.is_server_error() || status.is_client_error() {")], "why": "same predicate"},
 ]
